@@ -162,8 +162,8 @@ theorem conv_split (hclean : forestErrs (forest0 R opts plug) = []) :
         obtain ⟨h1, h2, h3, h4, h5, h6, h7, h8, h9, h10, h11, h12, h13, h14, h15, h16, h17, h18, h19⟩ := hd
         exact ⟨h1, h2, h3, h4, h5, h6, h7, h8, h9, h10, h11, h12, h13, h14, trivial, trivial, h17, h18, h19⟩
       · rw [hdir]; exact a3
-      · rw [hinp]; exact (by assumption : (pmod (envOf R opts plug) (vm s R opts plug) s.m s.m.stmt).inp = []).symm
-      · rw [hout]; exact (by assumption : (pmod (envOf R opts plug) (vm s R opts plug) s.m s.m.stmt).out = []).symm
+      · exact ⟨hinp, by assumption⟩
+      · exact ⟨hout, by assumption⟩
     · exact absurd h1'.symm (hr.sub_seqs_fresh sb hsb s.m hr.m_mem)
 
 end Conv
@@ -207,13 +207,13 @@ theorem ren_fixChoice (σ : Nat → Nat) (e : Entry) : ren σ (fixChoice e) = fi
 theorem sameTop_fixChoice (σ : Nat → Nat) (t' t : Entry) (h : SameTop σ t' t) : SameTop σ (fixChoice t') (fixChoice t) := by
   cases t' with | mk d' c' i' o' =>
   cases t with | mk d c i o =>
-  obtain ⟨h1, h2, h3, h4⟩ := h
-  simp only [Entry.d, Entry.dir, Entry.inp, Entry.out] at h1 h2 h3 h4
-  subst h3 h4
+  obtain ⟨h1, h2, ⟨h3, h3'⟩, ⟨h4, h4'⟩⟩ := h
+  simp only [Entry.d, Entry.dir, Entry.inp, Entry.out] at h1 h2 h3 h3' h4 h4'
+  subst h3 h3' h4 h4'
   rw [fixChoice_mk, fixChoice_mk]
   have hk : d'.kind = d.kind := by unfold SameData at h1; rw [h1]
   have he : d'.errors = d.errors := by unfold SameData at h1; rw [h1]
-  refine ⟨h1, ?_, rfl, rfl⟩
+  refine ⟨h1, ?_, ⟨rfl, rfl⟩, ⟨rfl, rfl⟩⟩
   simp only [Entry.dir, hk, he]
   rw [renL_eq_map] at h2 ⊢
   split
@@ -239,63 +239,49 @@ theorem sameTop_fixChoice (σ : Nat → Nat) (t' t : Entry) (h : SameTop σ t' t
 
 /-! ### paths into the two trees -/
 
-theorem find?_name_unique (l : List Entry) (hnd : (names1 l).Nodup) (k : String) (hk : k ≠ "") (x : Entry)
+theorem find?_name_unique (l : List Entry) (hnd : (l.map (·.name)).Nodup) (k : String) (x : Entry)
     (hx : x ∈ l) (hxk : x.name = k) : l.find? (·.name == k) = some x := by
   induction l with
   | nil => cases hx
   | cons y ys ih =>
     rw [List.find?_cons]
+    rw [List.map_cons, List.nodup_cons] at hnd
     by_cases hy : y.name = k
     · have hyb : (y.name == k) = true := by simpa using hy
       rw [hyb]
       rcases List.mem_cons.1 hx with rfl | hx
       · rfl
-      · exfalso
-        have : names1 (y :: ys) = k :: names1 ys := by
-          unfold names1
-          rw [List.map_cons, List.filter_cons, hy]
-          simp [hk]
-        rw [this, List.nodup_cons] at hnd
-        apply hnd.1
-        unfold names1
-        exact List.mem_filter.2 ⟨List.mem_map.2 ⟨x, hx, hxk⟩, by simpa using hk⟩
+      · exact absurd (List.mem_map.2 ⟨x, hx, hxk.trans hy.symm⟩) hnd.1
     · have hyb : (y.name == k) = false := by simpa using hy
       rw [hyb]
       rcases List.mem_cons.1 hx with rfl | hx
       · exact absurd hxk hy
-      · refine ih ?_ hx
-        unfold names1 at hnd ⊢
-        rw [List.map_cons, List.filter_cons] at hnd
-        split at hnd
-        · exact (List.nodup_cons.1 hnd).2
-        · exact hnd
+      · exact ih hnd.2 hx
 
-/-- Looking a child up by a non-empty name gives the same in two child lists that are permutations
-of each other, when the names are distinct. -/
-theorem find?_perm (l₁ l₂ : List Entry) (hp : l₁.Perm l₂) (hnd : (names1 l₂).Nodup) (k : String) (hk : k ≠ "") :
+/-- Looking a child up by name gives the same in two child lists that are permutations of each
+other, when the names are distinct. -/
+theorem find?_perm (l₁ l₂ : List Entry) (hp : l₁.Perm l₂) (hnd : (l₂.map (·.name)).Nodup) (k : String) :
     l₁.find? (·.name == k) = l₂.find? (·.name == k) := by
-  have hnd₁ : (names1 l₁).Nodup := by
-    unfold names1 at hnd ⊢
-    exact (((hp.map _).filter _).nodup_iff).2 hnd
+  have hnd₁ : (l₁.map (·.name)).Nodup := ((hp.map _).nodup_iff).2 hnd
   cases h1 : l₁.find? (·.name == k) with
   | some x =>
     have hx := List.mem_of_find?_eq_some h1
     have hxk : x.name = k := by simpa using List.find?_some h1
-    exact (find?_name_unique l₂ hnd k hk x (hp.mem_iff.1 hx) hxk).symm
+    exact (find?_name_unique l₂ hnd k x (hp.mem_iff.1 hx) hxk).symm
   | none =>
     cases h2 : l₂.find? (·.name == k) with
     | none => rfl
     | some y =>
       have hy := List.mem_of_find?_eq_some h2
       have hyk : y.name = k := by simpa using List.find?_some h2
-      rw [find?_name_unique l₁ hnd₁ k hk y (hp.mem_iff.2 hy) hyk] at h1
+      rw [find?_name_unique l₁ hnd₁ k y (hp.mem_iff.2 hy) hyk] at h1
       cases h1
 
-theorem child?_sameTop (σ : Nat → Nat) (t' t : Entry) (h : SameTop σ t' t) (hnd : (names1 t.dir).Nodup) (k : String)
-    (hk : k ≠ "") : (t'.child? k).map (ren σ) = t.child? k := by
+theorem child?_sameTop (σ : Nat → Nat) (t' t : Entry) (h : SameTop σ t' t) (hnd : (t.dir.map (·.name)).Nodup) (k : String) :
+    (t'.child? k).map (ren σ) = t.child? k := by
   unfold Entry.child?
   rw [← find?_name_ren, ← renL_eq_map]
-  exact find?_perm _ _ h.2.1 hnd k hk
+  exact find?_perm _ _ h.2.1 hnd k
 
 theorem getAt_ren (σ : Nat → Nat) : ∀ (p : Path) (e : Entry), (ren σ e).getAt p = (e.getAt p).map (ren σ)
   | [], e => rfl
@@ -316,24 +302,104 @@ theorem getAt_ren (σ : Nat → Nat) : ∀ (p : Path) (e : Entry), (ren σ e).ge
     | cons c cs => simp [getAt_ren σ p c]
 
 /-- Below the root, the owner's tree is the unsplit module's tree (up to the module numbers). -/
-theorem getAt_sameTop (σ : Nat → Nat) (t' t : Entry) (h : SameTop σ t' t) (hnd : (names1 t.dir).Nodup)
-    (s : Step) (p : Path) (hs : ∀ k, s = .child k → k ≠ "") : (t'.getAt (s :: p)).map (ren σ) = t.getAt (s :: p) := by
+theorem getAt_sameTop (σ : Nat → Nat) (t' t : Entry) (h : SameTop σ t' t) (hnd : (t.dir.map (·.name)).Nodup)
+    (s : Step) (p : Path) : (t'.getAt (s :: p)).map (ren σ) = t.getAt (s :: p) := by
   cases s with
   | child k =>
     simp only [Entry.getAt]
-    rw [← child?_sameTop σ t' t h hnd k (hs k rfl)]
+    rw [← child?_sameTop σ t' t h hnd k]
     cases t'.child? k with
     | none => rfl
     | some c => simp [getAt_ren]
-  | input =>
-    simp only [Entry.getAt, ← h.2.2.1]
-    cases hi : t'.inp with
-    | nil => rfl
-    | cons c cs =>
-      -- the module entry has no rpc input
-      sorry
-  | output =>
-    sorry
+  | input => simp only [Entry.getAt, h.2.2.1.1, h.2.2.1.2]; rfl
+  | output => simp only [Entry.getAt, h.2.2.2.1, h.2.2.2.2]; rfl
+
+theorem ro_go_ren (σ : Nat → Nat) : ∀ (p : Path) (e : Entry) (inh : Bool),
+    Entry.readOnlyAt.go (ren σ e) p inh = Entry.readOnlyAt.go e p inh
+  | [], e, inh => by unfold Entry.readOnlyAt.go; simp [renD]
+  | s :: rest, e, inh => by
+    unfold Entry.readOnlyAt.go
+    simp only [ren_d, renD_kind, ren_child?, ren_inp, ren_out]
+    have hc : (renD σ e.d).config = e.d.config := rfl
+    rw [hc]
+    cases s with
+    | child k =>
+      dsimp only
+      cases e.child? k with
+      | none => rfl
+      | some c => simp only [Option.map_some]; exact ro_go_ren σ rest c _
+    | input =>
+      dsimp only
+      cases e.inp with
+      | nil => rfl
+      | cons c cs => simp only [List.map_cons, List.head?_cons]; exact ro_go_ren σ rest c _
+    | output =>
+      dsimp only
+      cases e.out with
+      | nil => rfl
+      | cons c cs => simp only [List.map_cons, List.head?_cons]; exact ro_go_ren σ rest c _
+
+theorem stamp_go_ren (σ : Nat → Nat) : ∀ (p : Path) (e : Entry) (acc : Option String),
+    Entry.stampAt.go (ren σ e) p acc = Entry.stampAt.go e p acc
+  | [], e, acc => by unfold Entry.stampAt.go; rfl
+  | s :: rest, e, acc => by
+    unfold Entry.stampAt.go
+    simp only [ren_child?, ren_inp, ren_out]
+    cases s with
+    | child k =>
+      dsimp only
+      cases e.child? k with
+      | none => rfl
+      | some c => simp only [Option.map_some, ren_d]; exact stamp_go_ren σ rest c _
+    | input =>
+      dsimp only
+      cases e.inp with
+      | nil => rfl
+      | cons c cs => simp only [List.map_cons, List.head?_cons, ren_d]; exact stamp_go_ren σ rest c _
+    | output =>
+      dsimp only
+      cases e.out with
+      | nil => rfl
+      | cons c cs => simp only [List.map_cons, List.head?_cons, ren_d]; exact stamp_go_ren σ rest c _
+
+/-- **Read-only status** of the node at a path is the same in the owner's and the unsplit tree. -/
+theorem readOnlyAt_sameTop (σ : Nat → Nat) (t' t : Entry) (h : SameTop σ t' t) (hnd : (t.dir.map (·.name)).Nodup)
+    (p : Path) : t'.readOnlyAt p = t.readOnlyAt p := by
+  unfold Entry.readOnlyAt
+  have hk : t'.d.kind = t.d.kind := by have := h.1; unfold SameData at this; rw [this]
+  have hc : t'.d.config = t.d.config := by have := h.1; unfold SameData at this; rw [this]
+  cases p with
+  | nil => unfold Entry.readOnlyAt.go; rw [hk, hc]
+  | cons s rest =>
+    unfold Entry.readOnlyAt.go
+    rw [hk, hc]
+    cases s with
+    | child k =>
+      dsimp only
+      rw [← child?_sameTop σ t' t h hnd k]
+      cases t'.child? k with
+      | none => rfl
+      | some c => simp only [Option.map_some]; exact (ro_go_ren σ rest c _).symm
+    | input => dsimp only; rw [h.2.2.1.1, h.2.2.1.2]
+    | output => dsimp only; rw [h.2.2.2.1, h.2.2.2.2]
+
+/-- The **namespace stamp** found along a path is the same. -/
+theorem stampAt_sameTop (σ : Nat → Nat) (t' t : Entry) (h : SameTop σ t' t) (hnd : (t.dir.map (·.name)).Nodup)
+    (p : Path) : t'.stampAt p = t.stampAt p := by
+  unfold Entry.stampAt
+  cases p with
+  | nil => unfold Entry.stampAt.go; rfl
+  | cons s rest =>
+    unfold Entry.stampAt.go
+    cases s with
+    | child k =>
+      dsimp only
+      rw [← child?_sameTop σ t' t h hnd k]
+      cases t'.child? k with
+      | none => rfl
+      | some c => simp only [Option.map_some, ren_d]; exact (stamp_go_ren σ rest c _).symm
+    | input => dsimp only; rw [h.2.2.1.1, h.2.2.1.2]
+    | output => dsimp only; rw [h.2.2.2.1, h.2.2.2.2]
 
 /-! ### `processAll` -/
 
@@ -400,6 +466,63 @@ theorem process_split (hna : NoAugDev R) (hclean : (processAll R opts plug).erro
       refine ⟨fixChoice t0', by rw [h1]; rfl, ?_⟩
       rw [← ht]
       exact sameTop_fixChoice _ _ _ h2
+
+
+theorem names_nodup_of_clean (reg : Registry) (opts : Opts) (plug : Plug) (hclean : (processAll reg opts plug).errors = [])
+    (k : Nat) (t : Entry) (ht : (processAll reg opts plug).forest.tree? k = some t) : (t.dir.map (·.name)).Nodup := by
+  have hdp := process_clean_dp reg opts plug false (fun e => by cases e) hclean
+  have := (hdp (k, t) (tree?_mem ht)).wf
+  cases t with | mk d c i o =>
+  rw [everyNode_mk] at this
+  have h2 := wfqB_keysUnique false _ this.1
+  simp only [keysUniqueHere, Entry.dir, Bool.and_eq_true] at h2
+  exact of_decide_eq_true h2.1.1
+
+include h in
+/-- **Namespace, read-only status and every node below the root** of the owner's tree and of the
+unsplit module's tree agree, at every path. -/
+theorem process_split_paths (hna : NoAugDev R) (hclean : (processAll R opts plug).errors = []) (p : Path) :
+    namespaceAt R' (processAll R' opts plug).forest (s.m.seq, p) = namespaceAt R (processAll R opts plug).forest (s.m.seq, p) ∧
+    ∀ t' t, (processAll R' opts plug).forest.tree? s.m.seq = some t' → (processAll R opts plug).forest.tree? s.m.seq = some t →
+      t'.readOnlyAt p = t.readOnlyAt p ∧ (p ≠ [] → (t'.getAt p).map (ren s.σ) = t.getAt p) := by
+  obtain ⟨_, _, ⟨t, ht⟩, k4⟩ := process_split opts plug h hna hclean
+  obtain ⟨t', ht', hst⟩ := k4 t ht
+  have hnd := names_nodup_of_clean R opts plug hclean _ t ht
+  constructor
+  · unfold namespaceAt
+    simp only [ht, ht']
+    rw [stampAt_sameTop s.σ t' t hst hnd p]
+    cases t.stampAt p with
+    | some n => rfl
+    | none =>
+      dsimp only
+      have hr := h.regs
+      have b1 : R'.byId s.m.seq = some s.owner := by
+        rw [IncludeLink.byId_split_of_mem hr hr.m_mem, IncludeLink.repl_m]
+      have b2 : R.byId s.m.seq = some s.m := IncludeLink.byId_of_mem hr hr.m_mem
+      have o1 : R'.owner s.owner = some s.owner := by
+        unfold Registry.owner Mod.belongsTo? Stmt.argOf?
+        rw [IncludeBind.one?_none (by rw [h.text.kept "belongs-to" (by decide)]; exact h.text.m_no_belongs)]
+        rfl
+      have o2 : R.owner s.m = some s.m := by
+        unfold Registry.owner Mod.belongsTo? Stmt.argOf?
+        rw [IncludeBind.one?_none h.text.m_no_belongs]
+        rfl
+      rw [b1, b2]
+      dsimp only
+      rw [o1, o2]
+      dsimp only
+      unfold Stmt.argOf?
+      rw [IncludeBind.one?_congr (h.text.kept "namespace" (by decide))]
+  · intro t2' t2 h2' h2
+    rw [ht'] at h2'; rw [ht] at h2
+    cases h2'; cases h2
+    refine ⟨readOnlyAt_sameTop s.σ t' t hst hnd p, ?_⟩
+    intro hne
+    cases p with
+    | nil => exact absurd rfl hne
+    | cons st rest =>
+      exact getAt_sameTop s.σ t' t hst hnd st rest
 
 end Process
 
